@@ -76,7 +76,8 @@ inline void make_group(Group &G, uint64_t seed, unsigned long psize, unsigned lo
 //          goes out with s+1 (flavour 1), s'+1 (flavour 2) or both (3); in the answer phase (the broadcasts after its
 //          own complaint list) variant 0 = no answer at all (only the end marker), 1 = the answer to the first
 //          complainer is left out, 2 = instead of the answers one valid triple (w, s_bw, s'_bw) for the lowest party w
-//          that did not complain.  Left-out broadcasts are removed from the sequence numbering.
+//          that did not complain, 3 = every complaint is answered correctly (only the private pairs are wrong).  Left-out
+//          broadcasts are removed from the sequence numbering.
 //  Z  a,b: Byzantine dealer of a ZERO sharing (phase Proto::zero_phase()): with delta = {1, q-1, 42}[b], delta' = 7
 //          a=0 a CONSISTENT Pedersen sharing of a polynomial with constant term delta: the first commitment of the phase
 //              (C_b0 = 1) is broadcast as g^delta h^delta', every private pair (s, s') goes out as (s+delta, s'+delta')
